@@ -21,6 +21,7 @@ package interp
 //@   opt opaque-calls = *
 //@   opt opaque-havoc = none
 //@   opt inline = typeDefined
+//@   opt function = true
 //@   requires [assume] t != nil && o != nil
 //@   case defined-from: (t.cat == linkedT && t.val == o) || (o.cat == linkedT && o.val == t)
 //@   case unrelated: !((t.cat == linkedT && t.val == o) || (o.cat == linkedT && o.val == t))
@@ -37,3 +38,28 @@ package interp
 //@   opt opaque-havoc = none
 //@   requires interp != nil
 //@   ensures compile-error-returned: true
+
+// Go spec, Comparison operators: == and != need comparable operands (or one operand nil and the other
+// of a nil-able type); the ordering operators need ordered operands; and in every comparison one
+// operand must be assignable to the other's type.  Anything else is a compile error.
+//@ trusted func (n *node) cfgErrorf(format, args) (r)
+//@   ensures r != nil
+//@ trusted func (t *itype) comparable() (r)
+//@   pure
+//@ trusted func (t *itype) ordered() (r)
+//@   pure
+//@ trusted func (t *itype) hasNil() (r)
+//@   pure
+//@ trusted func (t *itype) isNil() (r)
+//@   pure
+//@ func (check typecheck) comparison(n) (err)
+//@   props C12
+//@   opt safety = off
+//@   opt opaque-calls = *
+//@   opt opaque-havoc = none
+//@   requires [assume] n != nil && len(n.child) == 2
+//@   ensures equality-needs-comparable-or-nil: err == nil && (n.action == aEqual || n.action == aNotEqual) ==> (n.child[0].typ.comparable() && n.child[1].typ.comparable()) || (n.child[0].typ.isNil() && n.child[1].typ.hasNil()) || (n.child[1].typ.isNil() && n.child[0].typ.hasNil())
+//@   ensures ordering-needs-ordered: err == nil && (n.action == aLower || n.action == aLowerEqual || n.action == aGreater || n.action == aGreaterEqual) ==> n.child[0].typ.ordered() && n.child[1].typ.ordered()
+//@   ensures operands-mutually-assignable: err == nil ==> n.child[0].typ.assignableTo(n.child[1].typ) || n.child[1].typ.assignableTo(n.child[0].typ)
+//@   ensures other-operators-rejected: err == nil ==> n.action == aEqual || n.action == aNotEqual || n.action == aLower || n.action == aLowerEqual || n.action == aGreater || n.action == aGreaterEqual
+//@   canary err == nil ==> n.child[0].typ.comparable()
